@@ -54,17 +54,13 @@ func (mo *mapObject) export(ctx *objectExportCtx) interface{} {
 	if v, exists := ctx.get(mo.val); exists {
 		return v
 	}
-	m := make([][2]interface{}, mo.m.size)
+	items := mo.m.snapshot()
+	m := make([][2]interface{}, len(items))
 	ctx.put(mo.val, m)
 
-	iter := mo.m.newIter()
-	for i := 0; i < len(m); i++ {
-		entry := iter.next()
-		if entry == nil {
-			break
-		}
-		m[i][0] = exportValue(entry.key, ctx)
-		m[i][1] = exportValue(entry.value, ctx)
+	for i, item := range items {
+		m[i][0] = exportValue(item[0], ctx)
+		m[i][1] = exportValue(item[1], ctx)
 	}
 
 	return m
